@@ -552,6 +552,21 @@ def outer_loads(ctx, r, F):
                 {str(chunks[0][0]), str(chunks[1][0])} == {str(("call", "core::array::<impl [T; N]>::as_slice", (P(1),))), str(("call", "core::array::<impl [T; N]>::as_slice", (P(2),)))}
         ctx.ob(r, (path.rsplit("::", 2)[-2] + "::" + path.rsplit("::", 1)[-1], "chunks-cover-body"), ok,
                "%s is not body1.chunks_exact(%d).zip(body2.chunks_exact(%d))" % (path, k, k), cfg=F.key, where=b.where())
+    # the 12-byte (Short) body never uses a vector backend: distance_12 forwards both bodies, in order, to the pseudo-SIMD
+    # function of the target's word size
+    b12 = F.fn("compare::dist_body::distance_12")
+    if b12 is not None:
+        ctx.instance(r)
+        ps = [p for p in sym.Sym(b12).paths() if p.end == "return"]
+        want = ["compare::dist_body::pseudo_simd_%d::distance_12" % w for w in (32, 64)]  # either word size computes the same sum
+        ok = bool(ps)
+        got = []
+        for p in ps:
+            e = n(p.ret)
+            got.append(sym.fmt(e)[:80])
+            if not (e[0] == "call" and e[1] in want and e[2] == (P(1), P(2))):
+                ok = False
+        ctx.ob(r, ("dist_body::distance_12", "forwards"), ok, "distance_12 returns %s; reference pseudo_simd_{32,64}::distance_12(body1, body2)" % got, cfg=F.key, where=b12.where())
     b = F.fn("compare::dist_body::pseudo_simd_64::distance_12")
     if b is not None:
         ctx.instance(r)
